@@ -171,15 +171,26 @@ func (root *Root) resolve(
 		// will be nil so check for a @go directive then a type argument that
 		// matches the object type. If there is a match then set the meta.
 		objType := reflect.TypeOf(obj)
+		var firstErr error
+		matched := false
 		for _, m := range tt.Members {
 			if ot, _ := m.(*Object); ot != nil { // already checked in validation
+				// A member that is not bound to a Go type yet and is not the
+				// type of obj is not a reason to give up, a later member can
+				// still be the one.
 				if meta, err := ot.metaCheck(objType); err != nil {
-					return nil, []error{err}
+					if firstErr == nil {
+						firstErr = err
+					}
 				} else if objType == meta {
 					result, ea = root.resolveFieldSels(obj, vars, field, m, depth-1)
+					matched = true
 					break
 				}
 			}
+		}
+		if !matched && firstErr != nil {
+			return nil, []error{firstErr}
 		}
 	default:
 		// Validation makes sure all output types are valid so no need to
